@@ -75,6 +75,7 @@ FIRE: List[Tuple[str, str, str, List[Tuple[str, str, str]]]] = [
     ("wrapper-json-not-decoded", "C04", "J2", [(I, "                        else _scalar_from_json(meta.wraps, value)", "                        else value")]),
     ("scalar-to-json-int64-number", "C05", "J1", [(I, "    if proto_type in INT_64_TYPES:\n        return str(value)\n", "")]),
     ("duration-text-through-float", "C15", "Q4", [(I, "        sign = -1 if text.startswith(\"-\") else 1\n        seconds, _, fraction = text.lstrip(\"+-\").partition(\".\")\n        nanos = int(fraction[:9].ljust(9, \"0\")) if fraction else 0\n        return sign * timedelta(seconds=int(seconds or 0), microseconds=nanos / 1e3)", "        return timedelta(seconds=float(text))")]),
+    ("optional-message-json-presence-dropped", "C04", "J5", [(I, "                    value._serialized_on_wire\n                    or include_default_values\n                    or meta.optional\n                    or self._include_default_value_for_oneof(\n                        field_name=field_name, meta=meta\n                    )\n                ):\n                    output[cased_name] = value.to_dict(casing, include_default_values)", "                    value._serialized_on_wire\n                    or include_default_values\n                    or self._include_default_value_for_oneof(\n                        field_name=field_name, meta=meta\n                    )\n                ):\n                    output[cased_name] = value.to_dict(casing, include_default_values)")]),
     ("mismatch-check-dropped", "C17", "M4", [(I, "            if not _wire_type_matches(parsed.wire_type, meta.proto_type, repeated):", "            if False:")]),
     ("packed-into-singular", "C17", "M4", [(I, "            repeated = proto_meta.default_gen[field_name] is list\n", "            repeated = True\n")]),
     ("empty-map-entry-dropped", "C01", "T4", [(I, "                            sk + sv,\n                            # An entry with default key and value is still an entry.\n                            serialize_empty=True,", "                            sk + sv,")]),
